@@ -35,6 +35,9 @@ impl Node {
 
 pub struct Walker<'a> {
   pub heap: &'a Heap,
+  /// leave out which module a class name resolves to (for comparing an expression with its
+  /// standalone reparse, where the imports of the surrounding module are not known)
+  pub unresolved: bool,
 }
 
 fn s(heap: &Heap, p: PStr) -> String {
@@ -43,7 +46,11 @@ fn s(heap: &Heap, p: PStr) -> String {
 
 impl<'a> Walker<'a> {
   pub fn new(heap: &'a Heap) -> Walker<'a> {
-    Walker { heap }
+    Walker { heap, unresolved: false }
+  }
+
+  pub fn new_unresolved(heap: &'a Heap) -> Walker<'a> {
+    Walker { heap, unresolved: true }
   }
 
   fn id(&self, kind: &'static str, id: &Id) -> Node {
@@ -54,7 +61,7 @@ impl<'a> Walker<'a> {
   }
 
   fn modref(&self, m: ModuleReference) -> String {
-    m.pretty_print(self.heap)
+    if self.unresolved { String::new() } else { m.pretty_print(self.heap) }
   }
 
   pub fn module<T: Clone>(&self, m: &Module<T>) -> Node {
@@ -115,6 +122,9 @@ impl<'a> Walker<'a> {
     match a {
       annotation::T::Primitive(l, _, k) => Node::new("annot_primitive", k.kind_str(), Some(*l)),
       annotation::T::Id(i) => self.annot_id(i),
+      // whether a bare name is a type parameter depends on the enclosing declaration, which a
+      // standalone reparse of an expression does not know either
+      annotation::T::Generic(l, id) if self.unresolved => Node::new("annot_id", "", Some(*l)).with(vec![self.id("annot_id_name", id)]),
       annotation::T::Generic(l, id) => Node::new("annot_generic", "", Some(*l)).with(vec![self.id("annot_generic_name", id)]),
       annotation::T::Fn(f) => {
         let mut ps = Node::new("annot_fn_params", "", Some(f.parameters.location));
